@@ -65,8 +65,18 @@ OPENERS = ["{{", "{{{", "[[", "[", "<b>", "''", "'''", "{|\n|", "[http://a ", "[
            "<b a=\"", "[//a ", "http://a ", "{{a|b=", "<br ", "</", "\n*", "{{{a|", "<nowiki>", "<pre a=\"", "\n;", "<br a=\"x>", "<ref name=\"a>t</ref>", "<b a='x>y</b>", "{| a=\"b\n|x\n|}\n", "\n| <span>\n"]
 
 
+# what may follow n unclosed openers: one closer of some construct (a route that SUCCEEDS at the very end and is then thrown
+# away, or fails only there, is re-tried differently from one that never closes)
+TAILS = ["]", "]]", "}}", "}}}", "''", "|}", "-->", "</b>", "\n", ">", "|-", "\n|-", "\n|}", "</ref>", "\"", "=="]
+OPENERS_T = OPENERS + ["{|\n", "{|\n| a\n", "[[http://a y", "[http://a [[b|", "[[a|[http://b c", "{{a|[http://b c", "<b>[http://a c", "''[[a|", "{{a|[[b|"]
+
+
 def family(name):
     """a size -> text function for a catalogue name or for 'pair <i> <j>' (two openers alternating, never closed)"""
+    if name.startswith("closed "):
+        _c, i, j = name.split()
+        o1, tl = OPENERS_T[int(i)], TAILS[int(j)]
+        return lambda n: o1 * n + tl
     if name.startswith("single "):
         o1 = OPENERS[int(name.split()[1])]
         return lambda n: o1 * n
@@ -240,8 +250,9 @@ def run(tier, seed):
     pairs = [(i, j) for i in range(len(OPENERS)) for j in range(len(OPENERS)) if i != j]
     if tier == "quick":
         pairs = rng.sample(pairs, 32)
+    closed = [(i, j) for i in range(len(OPENERS_T)) for j in range(len(TAILS))]
     jobs = [(name, maxn, tier) for name in sorted(FAMILIES)] + [("single %d" % i, maxn, tier) for i in range(len(OPENERS))] + \
-        [("pair %d %d" % p, maxn, tier) for p in pairs]
+        [("pair %d %d" % p, maxn, tier) for p in pairs] + [("closed %d %d" % p, maxn if tier != "quick" else 256, tier) for p in closed]
     res = vlib.robust_map(family_run, jobs, chunk=1, timeout=300 if tier == "quick" else 1800, procs=14)
     table = {}
     nontrivial = 0
@@ -277,7 +288,8 @@ def run(tier, seed):
                               "tree_depth": rec["depth"]}
     c.cov["distinct_nontrivial"] = nontrivial
     c.cov["rule"] = ("%d size-parameterised families (unclosed, crossed, properly nested openers of every construct kind; repeated delimiters; "
-                     "pairs of alternating unclosed openers (every opener alone, and pairs) out of 33 - 32 random pairs in the quick tier, all 1056 in the thorough tier) at "
+                     "pairs of alternating unclosed openers (every opener alone, and pairs) out of 33 - 32 random pairs in the quick tier, all 1056 in the thorough tier; "
+                     "n unclosed openers followed by ONE closer of some construct - all 672 (opener, closer) combinations, up to n = 256 in the quick tier) at "
                      "sizes n = 8, 12, ..., 32, 48, 64, then doubling, up to %d units (Python: until %d work units; C: until %.1f s CPU); non-trivial = family "
                      "measured at n >= 64" % (len(jobs), maxn, PY_BUDGET, C_BUDGET_S))
     c.cov["samples"] = [{"family": k, **v} for k, v in list(table.items())[:4]]
